@@ -118,6 +118,12 @@ def step (t : List String) : String :=
         | some r => showR (showW true) (decryptStreamTo (primsFor ((ct.drop 8).take 8) secret ct.length) .readFull secret r out)
         | none => "bad-op"
     | _, _, _ => "bad-op"
+  | ["ctr", key, iv, n] => match unhex key, unhex iv, n.toNat? with
+    -- the model's CTR keystream itself (compared with crypto/cipher's, not with /repo code)
+    | some key, some iv, some n =>
+      if iv.length = 16 ∧ (key.length = 16 ∨ key.length = 24 ∨ key.length = 32) ∧ n ≤ 65536
+      then "ok " ++ hex (Enc.aesCtrStream key iv n) else "bad-op"
+    | _, _, _ => "bad-op"
   | ["rt-cbc", ty, secret, pt] => match unhex secret, unhex pt with
     | some secret, some pt =>
       if ¬ tyOK ty then "bad-op" else
